@@ -52,6 +52,70 @@ CHECKS = {
             "an independent length-limited optimum (package-merge, validated against brute force at each run) under the table's own "
             "maximum length; all lengths <= 20; tables complete.",
             "Trusted: bzkit for per-table symbol counts; the package-merge oracle.", "4/C20"),
+    "C03": ("exploration",
+            "Hypothesis-generated (input, options) x >= 6 execution contexts (workers, owned schedules, fragmented pipes, "
+            "short reads/writes via LD_PRELOAD shim, output modes); metamorphic oracle: all outputs byte-identical",
+            "One input is compressed under many execution contexts (1-16 workers; free, perturbed and serialised PCT / "
+            "random-walk / round-robin schedules of the real program; stdin as file or as a pipe fed in generated fragments; "
+            "read()/write() clamped to seeded short lengths; stdout pipe, stdout file, FILE operand) and every output must be "
+            "byte-identical to the -n1 output. Pure metamorphic relation, no reference compressor.",
+            "Trusted: rt/verif_rt.c (serial schedules are legal executions), rt/iofault.c (short reads/writes are legal "
+            "kernel behaviour).", "4/C03"),
+    "C06": ("exploration",
+            "choice-tape generator of valid bzip2 files using every legal freedom (Hypothesis-driven) + third-party encoder "
+            "output; known-plaintext oracle cross-checked by bzkit and libbz2",
+            "Valid files from the bzgen choice-tape generator (mixed levels, empty streams, unaligned and randomised blocks, "
+            "2-6 tables of any shape incl. 20-bit codes, arbitrary unused tables, zig-zag delta paths, surplus selectors up to "
+            "32767, superset symbol maps, count bytes 0-255, chosen primary index, capacity-exact blocks, trailing data), "
+            "bzip2/libbz2 output at every level, concatenations and the repository samples must be accepted (exit 0, empty "
+            "stderr) and decode to the known plaintext under several worker counts, schedules and buffer sizes.",
+            "Trusted: bzgen/bzkit/libbz2 agreement on every generated file (disagreement = harness error).", "4/C06"),
+    "C09": ("exploration",
+            "Hypothesis-generated (compressed input, valid or mutated) x >= 6 contexts (workers, owned schedules, hook "
+            "input/output block sizes, short reads, fragmented pipe, stdout / -c / FILE / -t); metamorphic + reference oracle",
+            "One compressed input is decompressed under many contexts; exit status must be the same everywhere; when 0 the "
+            "bytes are identical and equal to the bzkit reference, -t writes nothing; when 1 whatever reached stdout is a "
+            "prefix of the sequential decoding and a FILE operand leaves no output. Input block sizes down to 4 bytes and "
+            "output buffers down to 1 byte suspend the bit-stream decoder and the run-length emitter at every position.",
+            "Trusted: bzkit reference; block sizes other than 262144/900000 exist only through the guarded hook.", "4/C09"),
+    "C10": ("exploration",
+            "generated streams with planted 48-bit block-header patterns (symbol-map planting, trailing data, 256 KiB edges) "
+            "x workers x owned schedules; sequential reference decoding as oracle; event trace measures discarded candidates",
+            "Files whose block headers, trailing data and input-block edges carry spurious copies of the block-header "
+            "pattern (followed by junk, by a header failing at the tables, or by a complete decodable false block) are "
+            "decoded under 1-16 workers and serialised PCT / random-walk schedules; status and bytes must equal the "
+            "sequential reference decoding. A case counts only when the event trace shows a scanner candidate the parser did "
+            "not confirm.", "Trusted: bzkit + libbz2 reference; rt/verif_rt.c; the guarded event hooks.", "4/C10"),
+    "C11": ("exploration",
+            "owned-schedule exploration (PCT / random walk / round robin) of the real scheduler over generated input shapes; "
+            "stuck-state detection, queue-capacity / slot-conservation / hand-off-order assertions, reference output",
+            "The real compressor, decompressor and -cdf copy run one thread at a time under a seeded chooser over generated "
+            "input shapes (block counts, splitting chunks, multi-buffer outputs, candidate floods, truncation) and 1-16 "
+            "workers. A state with no runnable thread, a step overrun, a queue insert beyond capacity, a slot counter out of "
+            "range or not restored, or an out-of-order hand-off is a violation; so is wrong output. Randomised search, not "
+            "exhaustive; no TLA+ model.", "Trusted: rt/verif_rt.c; C12 for data-race freedom.", "4/C11"),
+    "C12": ("exploration",
+            "ThreadSanitizer build of the real program over generated inputs/configurations with seeded schedule "
+            "perturbation; oracle: no race report",
+            "Compression (both modes), decompression (valid, flood, truncated), -cdf copy and FILE operands run with 2-16 "
+            "workers and real parallelism on a ThreadSanitizer build while the runtime injects seeded yields/sleeps at every "
+            "synchronisation and I/O point; any ThreadSanitizer report is a violation. Sees only races on executed accesses.",
+            "Trusted: ThreadSanitizer (clang 14).", "4/C12"),
+    "C19": ("exploration",
+            "Hypothesis-generated near-miss / boundary-size inputs x file or fragmented pipe x workers x schedules; identity "
+            "oracle, and differential against plain -cd for header inputs",
+            "Inputs that do not begin with BZh1-9 (lengths 0-3, every magic near-miss, sizes around multiples of the 64 KiB "
+            "copy buffer, random data) must come out byte for byte with exit 0 and empty stderr, from a file or a pipe fed in "
+            "generated fragments, alone on stdin or as several FILE operands; inputs that do begin with a header must behave "
+            "exactly as under -cd.", "Trusted: nothing beyond Python and the runtime.", "4/C19"),
+    "C22": ("exploration",
+            "Hypothesis-generated (invocation name, option token list, environment split, no-op insertions); executable model "
+            "of the documented rules + metamorphic relations",
+            "Invocation names (incl. paths), short/clustered/long option spellings, -d/-z orderings, level options and "
+            "environment-variable placement are generated; the observable behaviour (mode, destination, header digit, exit "
+            "status) must match a model written from the man page, moving LBZIP2/BZIP2/BZIP tokens to the front of the "
+            "command line must change nothing, and inserting the documented no-op options or --small must change nothing.",
+            "Trusted: the model's reading of the man page (usage text and lbzip2.1).", "4/C22"),
 }
 
 NOT_YET = "not built yet in this round (planned, see DESIGN.md section 7b)"
